@@ -174,6 +174,10 @@ def check(prog, rep):
     from .c13 import duration_dispatch
 
     duration_dispatch(prog, rep)
+    # nothing on the way is memoised on a key that does not determine the answer
+    from ..rules_own import memo_rule
+
+    memo_rule(prog, rep, rule="MEMO")
 
 
 H = "aw_transform/heartbeats.py"
